@@ -106,8 +106,9 @@ def one(ctx, i, tmpdir):
     wrap = "Optional[Union[{output_param}, str]]" if (i % 3 == 1 and not evalmode) else None
     eval_values = {}
     if evalmode:
-        in_src = "from typing import Optional, List\nzq_vals = tuple(sorted(('b_zq', 'a_zq', 'c_zq')))\n" + in_src.replace('"""Module zqdoc docstring', '"""Module zqdoc docstring', 1)
-        eval_values["zq_vals"] = ("a_zq", "b_zq", "c_zq")
+        vals = tuple(sorted("{}_zq{}".format(c, (i // 7) % 5) for c in "bac"))
+        in_src = "from typing import Optional, List\nzq_vals = tuple(sorted({!r}))\n".format(tuple(reversed(vals))) + in_src
+        eval_values["zq_vals"] = vals
         in_tree = ast.parse(in_src)
     n_pairs = 1 + (i % 3 if not evalmode else 0)
     # candidate locations: annotated things in the input, args/annotated assignments in the output
@@ -161,6 +162,9 @@ def one(ctx, i, tmpdir):
         wrap = None
         bad_address = True
     in_fn, out_fn = os.path.join(tmpdir, "in_{}.py".format(i)), os.path.join(tmpdir, "out_{}.py".format(i))
+    if evalmode:
+        # eval-mode cases of one process share ONE input path whose content changes from case to case
+        in_fn = os.path.join(tmpdir, "in_eval_shared.py")
     with open(in_fn, "w") as f:
         f.write(in_src)
     with open(out_fn, "w") as f:
